@@ -7,7 +7,7 @@ import os, re
 from . import common, gen, hist
 from .common import hexs
 
-VARIANTS = ("plain", "asan")
+VARIANTS = ("plain", "asan", "ofsseek")
 
 
 def base_history(ctx, flav):
@@ -149,6 +149,7 @@ def run(ctx):
     # second history (the device refuses to read one to six blocks of the file during a read call)
     from . import fileiocorr
     fileiocorr.run(ctx, 24 if ctx.tier == "quick" else 800, fault_every=2)
+    fileiocorr.run_ofsseek(ctx, 8 if ctx.tier == "quick" else 300)
     rng = ctx.rng
     flavs = gen.FLAVOURS
     A, B, D = hexs(b"fileA"), hexs(b"fileB"), hexs(b"dirD")
